@@ -585,10 +585,20 @@ def do_load(w: World, op: dict):
     if e:
         w.count("second_env_load")
     direct = bool(op.get("direct"))   # BaseLoader.load()/load_async() called by the application itself
+    if op.get("ctx") is not None:
+        # the application passes a render context of its own (as the include/render tags do)
+        from liquid2 import RenderContext
+
+        kw = {**kw, "context": RenderContext(env.from_string("", name="ctxholder"), global_data=dict(op["ctx"]))}
+        ckw = {**_kw(w, op), "context": RenderContext(cenv.from_string("", name="ctxholder"),
+                                                       global_data=dict(op["ctx"]))}
+        w.count("app_context_passed")
+    else:
+        ckw = kw
     if op["mode"] == "s":
         try:
             if direct:
-                lk = w.begin(op["name"], None, kw)
+                lk = w.begin(op["name"], kw.get("context"), {k: v for k, v in kw.items() if k != "context"})
                 try:
                     t0 = w.loader.load(env, op["name"], globals=g, **kw)
                 except BaseException as exc:  # noqa: BLE001
@@ -605,7 +615,7 @@ def do_load(w: World, op: dict):
     else:
         async def co():
             if direct:
-                lk = w.begin(op["name"], None, kw)
+                lk = w.begin(op["name"], kw.get("context"), {k: v for k, v in kw.items() if k != "context"})
                 try:
                     t0 = await w.loader.load_async(env, op["name"], globals=g, **kw)
                 except BaseException as exc:  # noqa: BLE001
@@ -622,9 +632,9 @@ def do_load(w: World, op: dict):
         return None, None
     with w.with_clone(stale):
         if direct:
-            tw = canon_call(cenv.loader.load, cenv, op["name"], globals=g, **kw)
+            tw = canon_call(cenv.loader.load, cenv, op["name"], globals=g, **ckw)
         else:
-            tw = canon_call(cenv.get_template, op["name"], globals=g, **kw)
+            tw = canon_call(cenv.get_template, op["name"], globals=g, **ckw)
     if out[0] == "ok":
         if tw[0] != "ok":
             raise Violation("load_mismatch", got="ok", expected=tw, lookups=[l.brief() for l in lookups])
@@ -998,6 +1008,13 @@ def apply_mutation(w: World, m: dict) -> None:
         if w.store.content(loc) is not None:
             w.count("F5_delete")
         w.delete(loc)
+    elif m["op"] == "linkify":
+        # F14: the source file becomes a symbolic link to its content (deploys that swap links):
+        # lstat() now reports the link's own inode, later writes go through the link
+        if not hasattr(w.store, "fs") or loc.startswith("d0:") or loc not in w.store.fs.files:
+            return
+        w.store.fs.links[loc] = w.store.fs.files[loc][1]
+        w.count("F14_symlinked_source")
     elif m["op"] == "dirify":
         # F12: the source file is replaced by a DIRECTORY of the same name: stat succeeds, open fails
         if not hasattr(w.store, "fs") or loc.startswith("d0:"):
@@ -1060,7 +1077,7 @@ def execute(plan: dict) -> dict:
                     if t is not None:
                         do_render(w, {**op, "id": f"{op['id']}r", "g_bound": op.get("g"),
                                       "env_g_bound": dict(w.env_g[op.get("e", 0) if len(w.envs) > 1 else 0])}, t, twin)
-                elif k in ("write", "delete", "blockdir", "unblockdir", "dirify"):
+                elif k in ("write", "delete", "blockdir", "unblockdir", "dirify", "linkify"):
                     apply_mutation(w, op)
                 elif k == "unavail":
                     unavailable_next = True
@@ -1155,6 +1172,10 @@ def gen_plan(seed: int, tier: str) -> dict:
         "policy": rng.choice(simsched.POLICIES),
     }
     names = list(NAME_POOL[: rng.choice([2, 3, 3, 4])])
+    rngn = random.Random(f"c14n:{seed}")   # (own random stream: base plans keep their shape)
+    if rngn.random() < 0.15 and not (store.startswith("fs") and cfg["encoding"] == "latin-1"):
+        # two names that differ only in Unicode normalisation form: distinct keys, distinct files
+        names += ["caf\u00e9", "cafe\u0301"]
     cfg["names"] = names
     if store == "fsx":
         names = [n for n in names]
@@ -1319,8 +1340,19 @@ def gen_plan(seed: int, tier: str) -> dict:
         f["name"] = n
         f["mode"] = "s"
         ops.append({"op": "lr", "id": nid(), "recovery": True, **f})
-    # a second Environment sharing the caching loader (own random stream: base plans keep their shape)
     rng2 = random.Random(f"c14e:{seed}")
+    if store.startswith("fs") and rng2.random() < 0.3:
+        # symbolic links (own random stream: base plans keep their shape)
+        for m in list(init):
+            if m["op"] == "write" and rng2.random() < 0.6:
+                init.append({"op": "linkify", "name": m["name"], "li": m["li"]})
+        if ops and rng2.random() < 0.5:
+            ops.insert(rng2.randrange(len(ops)), {"op": "linkify", "name": rng2.choice(names), "li": n_locs - 1})
+    # application code passing its own render context to get_template() / load()
+    for op in ops:
+        if op["op"] in ("lr", "load") and rng2.random() < 0.08:
+            op["ctx"] = ({"tenant": rng2.choice(TENANTS)} if (nskey and rng2.random() < 0.6) else {})
+    # a second Environment sharing the caching loader
     if rng2.random() < 0.3:
         cfg["env2"] = rng2.choice([{"gv": "F"}, {"gv": "F"}, {}])
         for op in ops:
